@@ -360,11 +360,10 @@ Proof.
       pose proof (getattr_unsaved _ _ _ _ _ EG) as Hu.
       assert (unsaved_wf sg) as Hsg by (unfold unsaved_wf; now rewrite Hu).
       destruct g as [[a|w l]|[ds|dl]]; try discriminate; try (inversion E; subst; assumption).
-      destruct (negb w); [discriminate|].
       destruct (negb on_modify_before_op); [discriminate|].
-      destruct (if is_wrapped o then mark_unsaved sg rn else Ok sg) as [s2|k|] eqn:EM; cbn [bind] in E; try discriminate.
+      destruct (if w && is_wrapped o then mark_unsaved sg rn else Ok sg) as [s2|k|] eqn:EM; cbn [bind] in E; try discriminate.
       assert (unsaved_wf s2) as Hs2.
-      { destruct (is_wrapped o); [eapply mark_unsaved_wf; eassumption|inversion EM; subst; assumption]. }
+      { destruct (w && is_wrapped o); [eapply mark_unsaved_wf; eassumption|inversion EM; subst; assumption]. }
       destruct (py_list_op o l) as [l'|k]; inversion E; subst; [|assumption].
       unfold unsaved_wf. now rewrite with_config_unsaved. }
     destruct ex; inversion H; subst; assumption.
@@ -395,13 +394,8 @@ Proof.
     destruct (m_getattr st (bs "SocksPort")) as [[[sg rn] g]|k|] eqn:EG; [|inversion E; subst; assumption|discriminate].
     pose proof (getattr_unsaved _ _ _ _ _ EG) as Hu.
     assert (unsaved_wf sg) as Hsg by (unfold unsaved_wf; now rewrite Hu).
-    destruct g as [[a|w [|[line|z|b|t] l]]|d]; try discriminate; try (inversion E; subst; assumption).
-    destruct (prefixb (bs "unix:") line); [inversion E; subst; assumption|].
-    destruct (existsb (fun c => is_space c && negb (Ascii.eqb c SP)) line); [discriminate|].
-    match type of E with (if ?c then _ else _) = _ => destruct c end.
-    + destruct (split_on COLON _) as [|h rest]; [discriminate|].
-      destruct (str_int _) as [[|p|p]|k|]; inversion E; subst; assumption.
-    + destruct (str_int _) as [[|p|p]|k|]; inversion E; subst; assumption.
+    destruct g as [[[[|c0 s0]|z0|b0|t0]|w [|x l]]|[[|c0 s0]|[|x l]]]; try discriminate; try (inversion E; subst; assumption);
+      match type of E with option_map _ ?r = _ => destruct r as [r0|]; cbn [option_map] in E; inversion E; subst; assumption end.
 Qed.
 
 (* after bootstrap nothing is pending *)
@@ -411,6 +405,7 @@ Proof.
   intros H HU. unfold setup_row in H. destruct row as [name value].
   destruct (beqb name (bs "HiddenServiceOptions")); [discriminate|].
   match type of H with bind ?r _ = _ => destruct r as [sx|k|] eqn:E1 end; cbn [bind] in H; try discriminate.
+  unfold setup_ports in E1. unfold setup_own in H.
   assert (m_unsaved sx = []) as HX.
   { destruct (suffixb PortLines_sfx name); [|inversion E1; subst; assumption].
     destruct (lookup_type (bs "String")) as [sty|]; [|discriminate].
@@ -491,3 +486,117 @@ Lemma ok_example :
                          [bs "SETCONF NumCPUs=7 Log=""q\""uote"" Log=""notice stdout"" Log=""info file /tmp/x"""]; []; []; []; []].
 Proof. split; [vm_compute; reflexivity|]. split; [vm_compute; reflexivity|].
        eexists _, _. split; [vm_compute; reflexivity|]. split; vm_compute; reflexivity. Qed.
+
+(* ================================================================== what the loop of save() leaves in config / unsaved *)
+(* config[key] after `self.config[real_name] = value` *)
+Definition saved_value (st : mst) (key : bytes) (value : cval) : option cval :=
+  match value with
+  | CList w l => Some (CList w l)
+  | CAtom a =>
+      match dget key (m_parsers st) with
+      | Some (pk, _, _) => match parse pk (PAtom a) with Ok pv => Some (cval_of_pyval true pv) | _ => None end
+      | None => Some (CAtom a)
+      end
+  end.
+
+Definition pending_after (value : cval) : uval :=
+  match value with CList _ _ => UAlias | CAtom a => UVal (CAtom a) end.
+
+Section LoopEffect.
+  Variable st0 : mst.
+
+  Lemma save_loop_effect : forall items st acc st' args,
+    save_loop st items acc = Ok (st', args) ->
+    NoDup (map fst items) ->
+    m_parsers st = m_parsers st0 ->
+    (forall it, In it items -> resolve st (fst it) (snd it) = resolve st0 (fst it) (snd it)) ->
+    (forall it, In it items -> exists u, dget (fst it) (m_unsaved st) = Some u /\ resolve st (fst it) u = resolve st (fst it) (snd it)) ->
+    (forall k u, In (k, u) items ->
+       exists value nv, resolve st0 k u = Some value /\ saved_value st0 k value = Some nv /\
+                        dget k (m_config st') = Some nv /\ dget k (m_unsaved st') = Some (pending_after value)) /\
+    (forall k, ~ In k (map fst items) ->
+       dget k (m_config st') = dget k (m_config st) /\ dget k (m_unsaved st') = dget k (m_unsaved st)) /\
+    m_parsers st' = m_parsers st0 /\ m_defaults st' = m_defaults st /\ m_listp st' = m_listp st.
+  Proof.
+    induction items as [|[key uv] rest IH]; intros st acc st' args H Hnd HP Hq Hu.
+    - cbn in H. inversion H. subst. repeat split; auto. intros k u [].
+    - cbn [save_loop] in H.
+      destruct (beqb key (bs "HiddenServices")); [discriminate|].
+      pose proof (Hq (key, uv) (or_introl eq_refl)) as Hres. cbn [fst snd] in Hres.
+      assert (match uv with UAlias => dget key (m_config st) | UVal v => Some v end = resolve st key uv) as Hm by reflexivity.
+      rewrite Hm, Hres in H.
+      destruct (resolve st0 key uv) as [value|] eqn:Hv; [|discriminate].
+      destruct (negb (beqb (find_real_name st key) key)) eqn:Hrn; [discriminate|].
+      apply negb_false_iff, beqb_eq in Hrn.
+      inversion Hnd as [|? ? Hnotin Hnd']. subst.
+      assert (forall it, In it rest -> fst it <> key) as Hother.
+      { intros it Hi E. apply Hnotin. rewrite <- E. now apply in_map. }
+      (* what one iteration does, for both kinds of value: st1 with config[key] = nv *)
+      assert (forall st1 nv acc1,
+                saved_value st0 key value = Some nv ->
+                m_config st1 = dset key nv (m_config st) ->
+                m_parsers st1 = m_parsers st -> m_defaults st1 = m_defaults st -> m_listp st1 = m_listp st ->
+                dget key (m_unsaved st1) = Some (pending_after value) ->
+                (forall k, k <> key -> dget k (m_unsaved st1) = dget k (m_unsaved st)) ->
+                save_loop st1 rest acc1 = Ok (st', args) ->
+                (forall k u, In (k, u) ((key, uv) :: rest) ->
+                   exists value0 nv0, resolve st0 k u = Some value0 /\ saved_value st0 k value0 = Some nv0 /\
+                                      dget k (m_config st') = Some nv0 /\ dget k (m_unsaved st') = Some (pending_after value0)) /\
+                (forall k, ~ In k (map fst ((key, uv) :: rest)) ->
+                   dget k (m_config st') = dget k (m_config st) /\ dget k (m_unsaved st') = dget k (m_unsaved st)) /\
+                m_parsers st' = m_parsers st0 /\ m_defaults st' = m_defaults st /\ m_listp st' = m_listp st) as Hgo.
+      { intros st1 nv acc1 Hsv Hcfg HP1 HD1 HL1 Hukey Huother Hl.
+        assert (forall it, In it rest -> resolve st1 (fst it) (snd it) = resolve st0 (fst it) (snd it)) as Hq1.
+        { intros it Hi. rewrite <- (Hq it (or_intror Hi)). destruct it as [k u]. cbn [fst snd].
+          destruct u; cbn [resolve]; [|reflexivity]. rewrite Hcfg. apply dget_dset_other.
+          intros E. apply (Hother (k, UAlias) Hi). now symmetry. }
+        assert (forall it, In it rest -> exists u, dget (fst it) (m_unsaved st1) = Some u /\ resolve st1 (fst it) u = resolve st1 (fst it) (snd it)) as Hu1.
+        { intros it Hi. destruct (Hu it (or_intror Hi)) as [u [Hu1 Hu2]]. exists u.
+          rewrite (Huother (fst it) (Hother it Hi)). split; [assumption|].
+          rewrite (Hq1 it Hi), <- (Hq it (or_intror Hi)), <- Hu2.
+          destruct u; cbn [resolve]; [|reflexivity]. rewrite Hcfg. apply dget_dset_other.
+          intros E. apply (Hother it Hi). now symmetry. }
+        destruct (IH st1 acc1 st' args Hl Hnd' (eq_trans HP1 HP) Hq1 Hu1) as [A [B [C [D E0]]]].
+        split; [|split; [|split; [assumption|split; congruence]]].
+        - intros k u [Hku|Hku].
+          + inversion Hku. subst k u. exists value, nv. split; [assumption|]. split; [assumption|].
+            destruct (B key Hnotin) as [B1 B2]. rewrite B1, B2, Hcfg, dget_dset_same. auto.
+          + apply A. assumption.
+        - intros k Hk. cbn [map fst] in Hk.
+          assert (k <> key) as Hne by (intros E; apply Hk; left; now symmetry).
+          assert (~ In k (map fst rest)) as Hnr by (intros E; apply Hk; now right).
+          destruct (B k Hnr) as [B1 B2]. rewrite B1, B2, Hcfg. split; [apply dget_dset_other; congruence|now apply Huother]. }
+      destruct (Hu (key, uv) (or_introl eq_refl)) as [u0 [Hu0 Hru0]]. cbn [fst snd] in Hu0, Hru0.
+      rewrite Hres in Hru0.
+      destruct value as [a|w l].
+      + rewrite Hrn in H.
+        assert (forall newv, dget key (m_unsaved (set_config st key newv)) = Some (UVal (CAtom a))) as Hsame.
+        { intros newv. destruct (set_config_unsaved_same st key newv u0 (CAtom a) Hu0 Hru0) as [u3 [H3 E3]]. now subst u3. }
+        destruct (dget key (m_parsers st)) as [[[pk vk] il]|] eqn:EP.
+        * destruct (parse pk (PAtom a)) as [pv|e|] eqn:EPa; cbn [bind] in H; try discriminate.
+          refine (Hgo (set_config st key (cval_of_pyval true pv)) (cval_of_pyval true pv) _ _ eq_refl eq_refl eq_refl eq_refl (Hsame _) _ H).
+          -- cbn [saved_value]. rewrite <- HP, EP, EPa. reflexivity.
+          -- intros k Hne. apply set_config_unsaved_other. congruence.
+        * refine (Hgo (set_config st key (CAtom a)) (CAtom a) _ _ eq_refl eq_refl eq_refl eq_refl (Hsame _) _ H).
+          -- cbn [saved_value]. rewrite <- HP, EP. reflexivity.
+          -- intros k Hne. apply set_config_unsaved_other. congruence.
+      + destruct (existsb (fun x => match x with AStr s => beqb s DEFAULT_VALUE | _ => false end) l); [discriminate|].
+        match type of H with save_loop ?s _ _ = _ => refine (Hgo s (CList w l) _ eq_refl eq_refl eq_refl eq_refl eq_refl _ _ H) end.
+        * cbn [m_unsaved]. apply dget_dset_same.
+        * intros k Hne. cbn [m_unsaved]. apply dget_dset_other. congruence.
+  Qed.
+End LoopEffect.
+
+Lemma save_loop_effect_whole st st' args :
+  unsaved_wf st -> save_loop st (m_unsaved st) [] = Ok (st', args) ->
+  (forall k u, In (k, u) (m_unsaved st) ->
+     exists value nv, resolve st k u = Some value /\ saved_value st k value = Some nv /\
+                      dget k (m_config st') = Some nv /\ dget k (m_unsaved st') = Some (pending_after value)) /\
+  (forall k, ~ In k (map fst (m_unsaved st)) -> dget k (m_config st') = dget k (m_config st)) /\
+  m_parsers st' = m_parsers st /\ m_defaults st' = m_defaults st /\ m_listp st' = m_listp st.
+Proof.
+  intros Hnd H.
+  destruct (save_loop_effect st (m_unsaved st) st [] st' args H Hnd eq_refl (fun it Hi => eq_refl)) as [A [B [C [D E]]]].
+  - intros [k u] Hi. exists u. split; [|reflexivity]. cbn [fst]. now apply dget_first.
+  - split; [exact A|]. split; [|auto]. intros k Hk. exact (proj1 (B k Hk)).
+Qed.
